@@ -26,7 +26,7 @@ def check(run):
     kinds = ["set", "set", "del", "app", "app", "range"]
     # ---------------------------------------------------------------- (a) flush, reopen, continue
     seqs = []
-    for k in range(25 if quick else 300):
+    for k in range(60 if quick else 600):
         depth = rng.choice([1, 2, 3, 4, 5])
         cap = 1 << depth
         seq = [f"tree new pmdisk {depth}"]          # the harness cycles through five storage configurations
@@ -48,7 +48,7 @@ def check(run):
     # ---------------------------------------------------------------- (b) every failure position of every operation
     fired_total, cases = 0, 0
     impl_all, lines_all, meta = [], [], []
-    for k in range(8 if quick else 80):
+    for k in range(16 if quick else 160):
         depth = rng.choice([2, 3, 4])
         cap = 1 << depth
         hist = [treegen.gen_mutator(rng, cap, kinds) for _ in range(rng.randint(1, 5))]
